@@ -63,3 +63,13 @@ pub mod serde_backend {
 pub mod serde_h {
     include!(concat!(env!("BROOD_VERIF_DIR"), "/harness/serde_h.rs"));
 }
+
+#[cfg(kani)]
+pub mod claims {
+    include!(concat!(env!("BROOD_VERIF_DIR"), "/harness/claims.rs"));
+}
+
+#[cfg(kani)]
+pub mod stagepair {
+    include!(concat!(env!("BROOD_VERIF_DIR"), "/harness/stagepair.rs"));
+}
